@@ -47,7 +47,8 @@ func (corruptScen) Rule(string) string {
 
 var coIdents = []string{"VERSION", "NAME", "tâche", "Ünïcode", "x", "long_name_with_underscores"}
 var coStrings = []string{"hello", "héllo wörld", "a b c", "", "**/*.go", "file.txt", "{{weird}}", "#notcomment", "ünï/côde.txt"}
-var coCmds = []string{"echo hello", "go test ./...", "echo {{.VERSION}}", "mkdir -p {{.NAME}}/bin", "echo one && echo two", "cat file | wc -l", "echo \"quoted\"", "ls -la $HOME"}
+var coCmds = []string{"echo hello", "go test ./...", "echo {{.VERSION}}", "mkdir -p {{.NAME}}/bin", "echo one && echo two", "cat file | wc -l", "echo \"quoted\"", "ls -la $HOME",
+	`dir C:\`, `echo one \`, `printf 'a\nb\n'`, `echo C:\tools\bin`, `echo \\`}
 
 func genValidSpokfile(r *Rng) string {
 	var b strings.Builder
@@ -116,7 +117,7 @@ func genValidSpokfile(r *Rng) string {
 var coInserts = [][]byte{[]byte("\u2028"), []byte("\u2029"), []byte("\u0085"), []byte("\u00a0"), {0xEF, 0xBB, 0xBF}, []byte("é"), []byte("😀"), {0x80}, {0xE2, 0x80},
 	[]byte("\u200b"), []byte("\u3000"), []byte("\r"), []byte("\x0b"), []byte("\x0c")}
 
-var coFlipVals = []byte{0x00, 0x80, 0xFF, '"', '{', '}', '(', ')', '#', '\r', '\n', ' ', 'a', 'Z', ':', '=', ',', '-', '>', 0xC3, '\t', '_', '0'}
+var coFlipVals = []byte{0x00, 0x80, 0xFF, '"', '{', '}', '(', ')', '#', '\r', '\n', ' ', 'a', 'Z', ':', '=', ',', '-', '>', 0xC3, '\t', '_', '0', '\\'}
 
 func (corruptScen) Gen(r *Rng, cfg GenConfig) any {
 	// generation never calls the system under test (a panic there would kill the worker outside any case)
